@@ -109,6 +109,28 @@ StepResp(binds, s) == Resp(binds, "cA", s.b, s.d, s.ch)
 \* what every device of devs says to the answer of step s, for each challenge it may have outstanding
 StepVerdicts(binds, wild, s, devs) == {[d |-> d, ch |-> ch, v |-> Verdict(StepResp(binds, s), d, ch, binds, wild)] : d \in devs, ch \in Chals}
 
+\* ------------------------------------------------------------------ what a challenge ANNOUNCES (enumerated by DatGen, decided in DatTrace)
+\* Besides the challenge vector a challenge carries what the device says about itself: the protocol version it speaks, its SoC class, its
+\* UUID and a root-of-trust hash field.  The host may compare them with its credential and refuse to answer (then it builds nothing and
+\* the property is silent); some differences it tolerates - a device of the EdgeLock-enclave classes may announce another protocol
+\* version than the one of the credential, a wildcard credential answers any UUID, some devices do not put the RoT hash into the field.
+\* Whatever the host tolerates: of the announced values only the UUID and the challenge vector are inputs of the response.  The device
+\* verifies what it receives along the CREDENTIAL inside the response - the credential's own version field says how long it is, of which
+\* type the debug key is and whether a UUID follows the beacon (`binds` of Verdict is the credential's).  So the answer to announcement a
+\* of a host whose credential is of protocol `binds` is AnnResp(binds, a) = Resp(binds, cA, b1, a.d, ch1): the very term it builds for a
+\* challenge that announces the credential's own version, and the answer to (a.d, ch1) only.
+\*   a = [ver, d, rkth, via]: ver = announced protocol version (DatLayout.Versions), d = the announcing device, rkth = what the RoT hash
+\*   field holds ("fused": the value in the device's fuses, "other": something else), via = the host's way of building the response
+\*   (from a configuration, the credential read from its file / by the constructor taking the credential object it holds)
+AnnRkth == {"fused", "other"}
+AnnVias == {"config", "create"}
+AnnStep(a) == [m |-> "fresh", d |-> a.d, ch |-> "ch1", b |-> B0]
+AnnResp(binds, a) == StepResp(binds, AnnStep(a))
+\* what the devices say to the answer to announcement a, for each challenge they may have outstanding
+AnnVerdicts(binds, wild, a, devs) == StepVerdicts(binds, wild, AnnStep(a), devs)
+\* (a host that takes the FORM of its answer from the announced version builds AnnResp(<kind of the announced version>, a) instead;
+\*  DatGen.FormFollowsCredential: where that kind is not the credential's, no device accepts it under any challenge)
+
 \* ------------------------------------------------------------------ histories of ONE credential object (enumerated by DatGen, decided step by step in DatTrace)
 \* The host holds a credential as an OBJECT: the values of the signed field classes CredFields and, once signed, the signature term
 \* Sig(rotk, <the values the fields had when the root-of-trust key signed>).  What an export puts on the wire is
